@@ -541,6 +541,133 @@ fn grid() -> Vec<FaultCase> {
     v
 }
 
+// ------------------------------------------- fault while another send is parked
+
+/// The peer has read K requests (in flight, unanswered), then stops reading; the
+/// client starts a large send, which parks on the full socket holding the writer; the
+/// peer then delivers a malformed frame (or a WebSocket text / Close frame) on the
+/// other direction and keeps the TCP connection open without reading. The K calls
+/// in flight must still return an error (they must not wait behind the parked send).
+#[derive(Debug, Clone, Serialize, Deserialize, Hash, PartialEq, Eq)]
+pub struct ParkedCase {
+    pub client: ClientKind,
+    pub inflight: u8,
+    pub fault: Fault,
+    pub per_call_timeout: bool,
+}
+
+pub fn check_parked_send(c: &ParkedCase) -> CheckResult {
+    let k = c.inflight.max(1) as usize;
+    let ws = c.client == ClientKind::Ws;
+    if !ws && matches!(c.fault, Fault::WsText | Fault::WsGarbage | Fault::WsCloseFrame) {
+        return Ok(CaseInfo::new(false).class("skipped-ws-only-fault"));
+    }
+    block_on(async {
+        let (client, mut io) = connect(c.client).await?;
+        let mut rx = match &client {
+            AnyClient::W(w) => Some(w.subscribe_notifies().map_err(|_| Fail::new("harness-subscribe", "busy"))?),
+            _ => None,
+        };
+        let timeout = c.per_call_timeout.then(|| Duration::from_secs(60));
+        let calls: Vec<_> = (0..k).map(|i| (i, client.spawn_call(i, timeout))).collect();
+        let mut received = Vec::new();
+        for _ in 0..k {
+            match tokio::time::timeout(watchdog(), io.recv()).await {
+                Ok(Ok(Some(f))) => received.push(f),
+                _ => return Err(Fail::new("peer-script", "peer did not receive the in-flight requests")),
+            }
+        }
+        // the peer stops reading; a large send parks on the full socket
+        let big = vec![0x5Au8; 24 << 20];
+        let parked = match &client {
+            AnyClient::B(cl) => {
+                let cl = cl.clone();
+                tokio::task::spawn_blocking(move || cl.notify_with_formats("/big", 1, Some(&big), 0).map_err(|e| e.to_string()))
+            }
+            AnyClient::A(cl) => {
+                let cl = cl.clone();
+                tokio::spawn(async move { cl.notify_with_formats("/big", 1, Some(&big), 0).await.map_err(|e| e.to_string()) })
+            }
+            AnyClient::W(cl) => {
+                let cl = cl.clone();
+                tokio::spawn(async move { cl.notify_with_formats("/big", 1, Some(&big), 0).await.map_err(|e| e.to_string()) })
+            }
+        };
+        tokio::time::sleep(Duration::from_millis(150)).await;
+        let was_parked = !parked.is_finished();
+        // the fault arrives on the other direction; the connection stays open and unread
+        match c.fault {
+            Fault::WsText => {
+                if let AnyIo::W(w) = &mut io {
+                    let _ = w.send_text("not binary").await;
+                }
+            }
+            Fault::WsGarbage => {
+                let _ = io.send_raw(&[0xC2, 0x01, 0x00]).await;
+            }
+            Fault::WsCloseFrame => {
+                if let AnyIo::W(w) = &mut io {
+                    use futures_util::SinkExt;
+                    let _ = w.ws.feed(repe::tokio_tungstenite::tungstenite::Message::Close(None)).await;
+                    let _ = tokio::time::timeout(Duration::from_millis(200), w.ws.flush()).await;
+                }
+            }
+            _ => {
+                let bytes = malformed_header(&c.fault, received.first().map(|f| f.header.id).unwrap_or(1));
+                let _ = io.send(&bytes).await;
+            }
+        }
+        let mut hung = Vec::new();
+        for (i, h) in calls {
+            match tokio::time::timeout(watchdog(), h).await {
+                Ok(Ok(Err(_))) => {}
+                Ok(Ok(Ok(v))) => return Err(Fail::new("unanswered-call-succeeded", format!("call {i} returned {v} although it was never answered"))),
+                Ok(Err(_)) => return Err(Fail::new("panic", format!("call {i} panicked"))),
+                Err(_) => hung.push(i),
+            }
+        }
+        let eos = match rx.as_mut() {
+            Some(rx) => matches!(tokio::time::timeout(watchdog(), async { while rx.recv().await.is_some() {} }).await, Ok(())),
+            None => true,
+        };
+        // let everything go: the peer closes
+        drop(io);
+        let _ = tokio::time::timeout(Duration::from_secs(5), parked).await;
+        ensure!(
+            hung.is_empty(),
+            "inflight-call-hangs-behind-parked-send",
+            "{:?}: after {:?} was delivered while another send was parked on a peer that is not reading, call(s) {hung:?} of {k} in flight had not returned {:?} later (send parked: {was_parked})",
+            c.client,
+            c.fault,
+            watchdog()
+        );
+        ensure!(eos, "subscriber-no-eos", "the notification subscriber did not see end-of-stream within {:?} (send parked: {was_parked})", watchdog());
+        Ok(CaseInfo::new(was_parked).class(format!("{:?}", c.client)).class(if was_parked { "send-parked" } else { "send-not-parked" }))
+    })
+}
+
+fn parked_cases() -> Vec<ParkedCase> {
+    let mut v = Vec::new();
+    for client in [ClientKind::Blocking, ClientKind::Async, ClientKind::Ws] {
+        for fault in [
+            Fault::BadMagic { stay_silent: true },
+            Fault::LengthMismatch { stay_silent: true },
+            Fault::WsText,
+            Fault::WsCloseFrame,
+        ] {
+            for (inflight, per_call_timeout) in [(1u8, false), (3, true)] {
+                v.push(ParkedCase {
+                    client,
+                    inflight,
+                    fault,
+                    per_call_timeout,
+                });
+            }
+        }
+    }
+    v
+}
+
 // ------------------------------------------------------------------ timeouts
 
 #[derive(Debug, Clone, Serialize, Deserialize, Hash, PartialEq, Eq)]
@@ -895,6 +1022,7 @@ fn queued_case() -> BoxedStrategy<QueuedCancel> {
 
 pub fn run(ctx: &Ctx, rep: &Report) {
     run_prop_threads(ctx, rep, "cancel-queued", ctx.tier.pick(48, 1_000), ctx.threads.min(8), &|| queued_case(), &check_queued_cancel);
+    run_enum(ctx, rep, "parked-send", &parked_cases(), true, &check_parked_send);
     run_enum(ctx, rep, "fault-grid", &grid(), true, &check_fault);
     run_prop(ctx, rep, "faults", ctx.tier.pick(1_200, 90_000), &|| fault_case(), &check_fault);
     run_prop(ctx, rep, "timeouts", ctx.tier.pick(600, 36_000), &|| timeout_case(), &check_timeout);
@@ -904,6 +1032,7 @@ pub fn replay(sub: &str, case: &serde_json::Value) -> Result<(), Fail> {
     match sub {
         "fault-grid" | "faults" => replay_case::<FaultCase>(case, &check_fault),
         "timeouts" => replay_case::<TimeoutCase>(case, &check_timeout),
+        "parked-send" => replay_case::<ParkedCase>(case, &check_parked_send),
         "cancel-queued" => replay_case::<QueuedCancel>(case, &check_queued_cancel),
         _ => Err(Fail::new("replay-unknown-sub", sub.to_string())),
     }
